@@ -217,6 +217,67 @@ fn helper_spelling(def_name: &str, ref_name: &str) -> String {
     }
 }
 
+/// serde(rename) values on types that are not identifiers of any target language (`account-id`): the generated file is
+/// not valid code (C10's hostile-name class), but C09 is about agreement - whatever the name is turned into, definition
+/// and references are turned into the same thing. Judged on the text: every run of name characters (letters, digits,
+/// `_`, `-`) that contains the type's distinguishing word has one and the same spelling.
+fn dashed_type_renames() -> Report {
+    let mut rep = Report::new();
+    let src = "#[typeshare]\n#[serde(rename = \"account-id\")]\npub struct AccountId(pub String);\n#[typeshare]\n#[serde(rename = \"user-rec\")]\npub struct UserRec { pub a: u8 }\n#[typeshare]\n#[serde(rename = \"kind-of\")]\npub enum KindOf { A, B }\n#[typeshare]\npub struct Holder { pub id: AccountId, pub u: Vec<UserRec>, pub k: Option<KindOf>, pub m: HashMap<String, AccountId> }\n#[typeshare]\n#[serde(tag = \"t\", content = \"c\")]\npub enum Pick { One(AccountId), Two { inner: UserRec } }\n";
+    let files = vec![SrcFile { path: "src/lib.rs".into(), source: src.into() }];
+    for lang in ALL_LANGS {
+        for prefix in ["", "OP"] {
+            if !prefix.is_empty() && !matches!(lang, LangId::Swift | LangId::Kotlin) {
+                continue;
+            }
+            let mut cfg = LangCfg::basic(lang);
+            cfg.prefix = prefix.into();
+            let o = crate::sut::run_lib(&files, lang, &cfg, false, &[]);
+            rep.eval(1);
+            rep.cell(format!("dashed-type-rename|{}|prefix={}", lang.name(), !prefix.is_empty()));
+            let Some(text) = o.single() else {
+                rep.inconclusive("dashed-type-rename-not-generated", json!({"language": lang.name(), "outcome": o.describe()}));
+                continue;
+            };
+            // (distinguishing word, the Go unit enum is defined under its Rust name: recorded finding of this property)
+            for word in ["account", "user", "kind"] {
+                if lang == LangId::Go && word == "kind" {
+                    continue;
+                }
+                let mut spellings: std::collections::BTreeSet<String> = Default::default();
+                let mut cur = String::new();
+                for ch in text.chars().chain(std::iter::once(' ')) {
+                    if ch.is_alphanumeric() || ch == '_' || ch == '-' {
+                        cur.push(ch);
+                    } else if !cur.is_empty() {
+                        let w = std::mem::take(&mut cur);
+                        // the name itself: prefix + renamed name, in whatever sanitised form; longer names built from it
+                        // (variant helpers, coding keys) and the wire strings of other items do not start like it
+                        let lower = w.to_lowercase().replace('_', "-");
+                        let target = match word {
+                            "account" => "account-id",
+                            "user" => "user-rec",
+                            _ => "kind-of",
+                        };
+                        if lower == target || lower == format!("{}{target}", prefix.to_lowercase()) {
+                            spellings.insert(w);
+                        }
+                    }
+                }
+                rep.count("dashed_type_rename_spellings_seen", spellings.len() as u64);
+                if spellings.len() > 1 {
+                    rep.violate(
+                        format!("C09|{}|dashed-type-rename|definition-and-references-spelled-differently", lang.name()),
+                        format!("{}: the type renamed to a dashed name is written as {:?}", lang.name(), spellings),
+                        json!({"language": lang.name(), "prefix": prefix, "spellings": spellings, "source": src, "output": text}),
+                    );
+                }
+            }
+        }
+    }
+    rep
+}
+
 /// serde names that are at the same time Rust identifiers of other shared types: a reference is rewritten exactly once
 /// (identifier -> serde name of *that* type), whatever the new spelling happens to mean as an identifier
 fn rename_chains(ctx: &Ctx) -> Report {
@@ -342,9 +403,10 @@ pub fn run(ctx: &Ctx) -> (Spec, Report) {
     );
     let mut rep = rep;
     rep.merge(rename_chains(ctx));
+    rep.merge(dashed_type_renames());
     let spec = Spec {
         level: "exploration",
-        rule: format!("{n} programs of 3-10 mutually referencing types (struct, generic struct, unit enum, tagged enum with newtype and struct variants, alias, newtype), references direct / through containers / as generic arguments, a random subset carrying serde(rename) on the type, a seventh of the structs / enums shared through `serialized_as` (with or without a container rename_all), prefix on or off (Swift, Kotlin), 6 languages; every type name used in a field, payload, generic argument, alias target, variant parent or variant-helper reference must equal the name of the definition carrying the same stem(s); plus a fixed program in which serde names and Rust identifiers overlap (`UserV2` renamed to `User` beside `User` renamed to `UserLegacy`; `Left` and `Right` renamed to each other), through the library and through the binary under 3 prefixes: each reference is spelled like the definition of the type it refers to; distinct = (language, target kind, site, renamed?, prefix?, nested?)"),
+        rule: format!("{n} programs of 3-10 mutually referencing types (struct, generic struct, unit enum, tagged enum with newtype and struct variants, alias, newtype), references direct / through containers / as generic arguments, a random subset carrying serde(rename) on the type, a seventh of the structs / enums shared through `serialized_as` (with or without a container rename_all), prefix on or off (Swift, Kotlin), 6 languages; every type name used in a field, payload, generic argument, alias target, variant parent or variant-helper reference must equal the name of the definition carrying the same stem(s); plus a fixed program in which serde names and Rust identifiers overlap (`UserV2` renamed to `User` beside `User` renamed to `UserLegacy`; `Left` and `Right` renamed to each other), through the library and through the binary under 3 prefixes: each reference is spelled like the definition of the type it refers to; plus types renamed to dashed names (no identifier anywhere), where definition and references must still be turned into the same spelling; distinct = (language, target kind, site, renamed?, prefix?, nested?)"),
         assumptions: vec!["use and definition are paired by stems, so either spelling passes as long as both sides agree".into()],
         exhaustive: None,
     };
